@@ -415,10 +415,11 @@ fn check_1302(ctx: &mut Ctx, rng: &mut Rng, reps: usize) {
         }
     };
     for n in 0..=8usize {
-        for _ in 0..reps {
+        for rep in 0..reps.max(4) {
             ctx.eval();
             let mut mv = v.clone();
-            let name_len = rng.usize_below(32);
+            // the shortest bodies as well: empty name, all links empty / one character in all
+            let name_len = if rep < 4 { [0usize, 0, 1, 31][rep] } else { rng.usize_below(32) };
             if let Some(V::Str(s)) = find_field_mut(&mut mv, "rtcm_crs_name_str") {
                 *s = ascii(rng, name_len);
             }
@@ -427,7 +428,12 @@ fn check_1302(ctx: &mut Ctx, rng: &mut Rng, reps: usize) {
                 xs.clear();
                 for _ in 0..n {
                     let mut e = tpl.clone();
-                    let k = rng.usize_below(32);
+                    let k = match rep {
+                        0 | 2 => 0,
+                        1 => usize::from(xs.len() + 1 == n),
+                        3 => 31,
+                        _ => rng.usize_below(32),
+                    };
                     if let Some(V::Str(s)) = find_field_mut(&mut e, "database_link_str") {
                         *s = ascii(rng, k);
                     }
